@@ -33,6 +33,7 @@ type Engine struct {
 	src       map[string][]byte
 	typeCache map[string]types.Type
 	arrInvKeys map[string]bool
+	mapInvKeys map[string]bool
 }
 
 const repoMod = "github.com/tyler-sommer/stick"
@@ -113,6 +114,16 @@ func loadEngine(repo string, speclibDir string) (*Engine, error) {
 		}
 		e.arrInvKeys[e.u.arrKey(t)] = true
 	}
+	e.mapInvKeys = map[string]bool{}
+	for k := range e.contracts.MapInv {
+		parts := strings.SplitN(k, "|", 2)
+		t, err := e.resolveType(parts[0], parts[1])
+		if err != nil {
+			return nil, err
+		}
+		_, mv, _, _ := e.mapKeys(t)
+		e.mapInvKeys[mv] = true
+	}
 	// functions implementing a functype inherit its clauses (checked against their own body)
 	for _, c := range e.contracts.Funcs {
 		if c.Implements == "" {
@@ -124,6 +135,7 @@ func loadEngine(repo string, speclibDir string) (*Engine, error) {
 		}
 		c.Requires = append(append([]Clause{}, ft.Requires...), c.Requires...)
 		c.Ensures = append(append([]Clause{}, ft.Ensures...), c.Ensures...)
+		c.Trusts = append(append([]Clause{}, ft.Trusts...), c.Trusts...)
 	}
 	for _, g := range e.contracts.Ghosts {
 		srt := specSort(g.Sort)
@@ -307,7 +319,8 @@ func (e *Engine) sourceText(from, to token.Pos) string {
 // Write-effect analysis: which heap keys may a function write (transitively)?
 // Keys are type-based (site suffixes are added at use).
 
-var callbackEffects = []string{"BD", "BL", "MD|Int|Val", "MV|Int|Val", "MD|Int|Str", "MV|Int|Str", "EXT"}
+// what user callbacks may write: output buffers, the scope maps (Context.Scope().Set) and the metadata map
+var callbackEffects = []string{"BD", "BL", "MD|Int|Val|map_string_stick.Value", "MV|Int|Val|map_string_stick.Value", "MD|Int|Str|map_string_string", "MV|Int|Str|map_string_string", "EXT"}
 
 func (e *Engine) computeEffects() {
 	e.effects = map[*ssa.Function]map[string]bool{}
@@ -475,13 +488,168 @@ func (e *Engine) mapKeys(t types.Type) (md, mv, ks, vs string) {
 		ks = "Int"
 	}
 	vs = e.u.sortOf(mt.Elem())
-	return "MD|" + ks + "|" + vs, "MV|" + ks + "|" + vs, ks, vs
+	// maps of different Go types never alias: the type is part of the key
+	ts := sanitize(types.TypeString(types.Unalias(t), func(p *types.Package) string { return p.Name() }))
+	if n, ok := types.Unalias(t).(*types.Named); ok {
+		ts = sanitize(types.TypeString(n.Underlying(), func(p *types.Package) string { return p.Name() }))
+	}
+	return "MD|" + ks + "|" + vs + "|" + ts, "MV|" + ks + "|" + vs + "|" + ts, ks, vs
+}
+
+// baseClass classifies the object a pointer value denotes, relative to function f:
+//   "#P<i>"  parameter i of f        "#FV<k>" free variable k of closure f
+//   "#FRESH" allocated by f (or by a callee that returns a fresh object)        "" unknown
+func (e *Engine) baseClass(f *ssa.Function, v ssa.Value) string {
+	switch x := v.(type) {
+	case *ssa.Parameter:
+		for i, p := range f.Params {
+			if p == x {
+				return fmt.Sprintf("#P%d", i)
+			}
+		}
+	case *ssa.Alloc:
+		return "#FRESH"
+	case *ssa.FreeVar:
+		for k, fv := range f.FreeVars {
+			if fv == x {
+				return fmt.Sprintf("#FV%d", k)
+			}
+		}
+	case *ssa.Call:
+		if g := x.Call.StaticCallee(); g != nil {
+			if ct := e.contracts.Funcs[e.keyOf(g)]; ct != nil && ct.FreshResult {
+				return "#FRESH"
+			}
+		}
+	case *ssa.UnOp:
+		if x.Op == token.MUL {
+			// load from a cell that only ever holds one value (a captured parameter)
+			switch c := x.X.(type) {
+			case *ssa.Alloc:
+				if val := e.singleStore(c); val != nil {
+					return e.baseClass(f, val)
+				}
+			case *ssa.FreeVar:
+				// captured by reference: the class is that of the cell's content in the defining function
+				for k, fv := range f.FreeVars {
+					if fv == c {
+						return fmt.Sprintf("#FVC%d", k)
+					}
+				}
+			}
+		}
+	case *ssa.ChangeType:
+		return e.baseClass(f, x.X)
+	}
+	return ""
+}
+
+// singleStore: the value stored into a local cell if there is exactly one store (the initialisation) and
+// the cell's address does not escape other than into closures that only read it.
+func (e *Engine) singleStore(a *ssa.Alloc) ssa.Value {
+	var val ssa.Value
+	n := 0
+	if a.Referrers() == nil {
+		return nil
+	}
+	for _, r := range *a.Referrers() {
+		switch rr := r.(type) {
+		case *ssa.Store:
+			if rr.Addr == a {
+				n++
+				val = rr.Val
+			} else {
+				return nil
+			}
+		case *ssa.UnOp, *ssa.DebugRef:
+		case *ssa.MakeClosure:
+			// the closure must not store to the captured variable itself
+			cf := rr.Fn.(*ssa.Function)
+			for k, b := range rr.Bindings {
+				if b != a || k >= len(cf.FreeVars) {
+					continue
+				}
+				fv := cf.FreeVars[k]
+				if fv.Referrers() != nil {
+					for _, fr := range *fv.Referrers() {
+						if st, ok := fr.(*ssa.Store); ok && st.Addr == fv {
+							return nil
+						}
+						if _, ok := fr.(*ssa.MakeClosure); ok {
+							return nil
+						}
+					}
+				}
+			}
+		default:
+			return nil
+		}
+	}
+	if n == 1 {
+		return val
+	}
+	return nil
+}
+
+// structBase: for a store through FieldAddr chains, the pointer to the outermost struct object.
+func structBase(addr ssa.Value) ssa.Value {
+	for {
+		fa, ok := addr.(*ssa.FieldAddr)
+		if !ok {
+			return nil
+		}
+		if inner, ok := fa.X.(*ssa.FieldAddr); ok {
+			addr = inner
+			continue
+		}
+		return fa.X
+	}
+}
+
+func stripBase(k string) string {
+	if i := strings.Index(k, "#"); i >= 0 {
+		return k[:i]
+	}
+	return k
 }
 
 func (e *Engine) instrEffects(f *ssa.Function, in ssa.Instruction) []string {
 	switch v := in.(type) {
 	case *ssa.Store:
-		return e.addrKeys(v.Addr)
+		ks := e.addrKeys(v.Addr)
+		if ia, ok := v.Addr.(*ssa.IndexAddr); ok {
+			// element store into an array this function allocated itself
+			fresh := false
+			switch x := ia.X.(type) {
+			case *ssa.Alloc, *ssa.MakeSlice:
+				fresh = true
+			case *ssa.Slice:
+				if _, ok := x.X.(*ssa.Alloc); ok {
+					fresh = true
+				}
+			}
+			if fresh {
+				out := make([]string, len(ks))
+				for i, k := range ks {
+					out[i] = k + "#FRESH"
+				}
+				return out
+			}
+		}
+		if b := structBase(v.Addr); b != nil {
+			if cls := e.baseClass(f, b); cls != "" {
+				out := make([]string, len(ks))
+				for i, k := range ks {
+					if strings.HasPrefix(k, "F|") {
+						out[i] = k + cls
+					} else {
+						out[i] = k
+					}
+				}
+				return out
+			}
+		}
+		return ks
 	case *ssa.MapUpdate:
 		md, mv, _, _ := e.mapKeys(v.Map.Type())
 		return []string{md, mv}
@@ -512,19 +680,125 @@ func (e *Engine) effectList(f *ssa.Function) []string {
 	return ks
 }
 
+// rebase translates an effect key of callee g ("K#P<j>", "K#FV<k>", "K#FVC<k>") into the caller f's terms.
+func (e *Engine) rebase(f *ssa.Function, g *ssa.Function, c *ssa.CallCommon, mc *ssa.MakeClosure, k string) string {
+	i := strings.Index(k, "#")
+	if i < 0 {
+		return k
+	}
+	base, cls := k[:i], k[i:]
+	switch {
+	case cls == "#FRESH":
+		return k
+	case strings.HasPrefix(cls, "#P"):
+		var j int
+		fmt.Sscanf(cls, "#P%d", &j)
+		if c == nil || mc != nil && c.Value != mc {
+			return base
+		}
+		// argument j of this call (for closures called directly the parameters line up with c.Args)
+		if j < len(c.Args) && !c.IsInvoke() {
+			if nc := e.baseClass(f, c.Args[j]); nc != "" {
+				return base + nc
+			}
+		}
+		return base
+	case strings.HasPrefix(cls, "#FVC"), strings.HasPrefix(cls, "#FV"):
+		var kk int
+		byRef := strings.HasPrefix(cls, "#FVC")
+		if byRef {
+			fmt.Sscanf(cls, "#FVC%d", &kk)
+		} else {
+			fmt.Sscanf(cls, "#FV%d", &kk)
+		}
+		if mc == nil || kk >= len(mc.Bindings) {
+			return base
+		}
+		b := mc.Bindings[kk]
+		if byRef {
+			// the binding is the cell; its content's class in f
+			switch cell := b.(type) {
+			case *ssa.Alloc:
+				if val := e.singleStore(cell); val != nil {
+					if nc := e.baseClass(f, val); nc != "" {
+						return base + nc
+					}
+				}
+			case *ssa.FreeVar:
+				for k2, fv := range f.FreeVars {
+					if fv == cell {
+						return base + fmt.Sprintf("#FVC%d", k2)
+					}
+				}
+			}
+			return base
+		}
+		if nc := e.baseClass(f, b); nc != "" {
+			return base + nc
+		}
+		return base
+	}
+	return base
+}
+
 func (e *Engine) callEffects(f *ssa.Function, c *ssa.CallCommon) []string {
 	var out []string
-	addFn := func(g *ssa.Function) {
+	var curClosure *ssa.MakeClosure
+	var addFn func(g *ssa.Function)
+	addFn = func(g *ssa.Function) {
 		if ct := e.contracts.Funcs[e.keyOf(g)]; ct != nil && ct.HasMod {
 			out = append(out, ct.Modifies...)
 			return
 		}
-		out = append(out, e.effectList(g)...)
+		for _, k := range e.effectList(g) {
+			if strings.HasPrefix(k, "PARAM:") {
+				continue
+			}
+			out = append(out, e.rebase(f, g, c, curClosure, k))
+		}
 	}
-	// closures passed as arguments may be called by the callee
-	for _, a := range c.Args {
-		if mc, ok := a.(*ssa.MakeClosure); ok {
-			addFn(mc.Fn.(*ssa.Function))
+	// resolve the parametric effects of a static callee against the actual arguments
+	resolveParams := func(g *ssa.Function) {
+		for _, k := range e.effectList(g) {
+			if !strings.HasPrefix(k, "PARAM:") {
+				continue
+			}
+			var idx int
+			fmt.Sscanf(k, "PARAM:%d", &idx)
+			if idx >= len(c.Args) {
+				out = append(out, callbackEffects...)
+				continue
+			}
+			arg := c.Args[idx]
+			for {
+				ct, ok := arg.(*ssa.ChangeType)
+				if !ok {
+					break
+				}
+				arg = ct.X
+			}
+			switch av := arg.(type) {
+			case *ssa.MakeClosure:
+				curClosure = av
+				addFn(av.Fn.(*ssa.Function))
+				curClosure = nil
+			case *ssa.Function:
+				addFn(av)
+			case *ssa.Parameter:
+				// passed on from our own parameter: stays parametric
+				for i, q := range f.Params {
+					if q == av {
+						out = append(out, fmt.Sprintf("PARAM:%d", i))
+					}
+				}
+			default:
+				if sig, ok := c.Args[idx].Type().Underlying().(*types.Signature); ok {
+					for _, h := range e.sigFuncs[sigKey(sig)] {
+						addFn(h)
+					}
+				}
+				out = append(out, callbackEffects...)
+			}
 		}
 	}
 	if c.IsInvoke() {
@@ -567,12 +841,32 @@ func (e *Engine) callEffects(f *ssa.Function, c *ssa.CallCommon) []string {
 	case *ssa.Function:
 		if e.isRepoFn(cv) {
 			addFn(cv)
+			resolveParams(cv)
 			return out
+		}
+		// closures handed to external code may be called by it
+		for _, a := range c.Args {
+			if mc, ok := a.(*ssa.MakeClosure); ok {
+				curClosure = mc
+				addFn(mc.Fn.(*ssa.Function))
+				curClosure = nil
+			}
 		}
 		return append(out, e.externalEffects(cv, c)...)
 	case *ssa.MakeClosure:
+		curClosure = cv
 		addFn(cv.Fn.(*ssa.Function))
+		curClosure = nil
 		return out
+	}
+	// a call through a function-typed parameter is parametric: its effect is added at each call site
+	// of this function from the actual argument
+	if prm, ok := c.Value.(*ssa.Parameter); ok {
+		for i, q := range f.Params {
+			if q == prm {
+				return append(out, fmt.Sprintf("PARAM:%d", i))
+			}
+		}
 	}
 	// dynamic call through a function value: all address-taken repo functions of that signature
 	if sig, ok := c.Value.Type().Underlying().(*types.Signature); ok {
